@@ -374,7 +374,18 @@ pub fn exec_project(input: &Value) -> (Value, Value) {
     let prefix = s(&input["project"], "root_prefix");
     let src = if prefix.is_empty() { root.join("src-tauri") } else { root.join(&prefix).join("src-tauri") };
     for f in arr(&input["project"], "files") {
-        let p = src.join(s(&f, "path"));
+        // U+FFFD in a path of the IR stands for one byte that is not UTF-8 (0xE9, Latin-1 `é`): the file on disk has a name
+        // that only exists as bytes, the tool (and the model) see its lossy rendering
+        let p = if s(&f, "path").contains('\u{fffd}') {
+            use std::os::unix::ffi::OsStrExt;
+            let mut bytes: Vec<u8> = Vec::new();
+            for ch in s(&f, "path").chars() {
+                if ch == '\u{fffd}' { bytes.push(0xE9) } else { let mut b = [0u8; 4]; bytes.extend_from_slice(ch.encode_utf8(&mut b).as_bytes()) }
+            }
+            src.join(std::ffi::OsStr::from_bytes(&bytes))
+        } else {
+            src.join(s(&f, "path"))
+        };
         if let Some(d) = p.parent() {
             let _ = std::fs::create_dir_all(d);
         }
@@ -483,6 +494,15 @@ pub fn exec_project(input: &Value) -> (Value, Value) {
                 let _ = std::fs::write(out_dir.join(n), "// stale line of an earlier generation\nexport const stale = {;\n".repeat(4000));
             }
             let mut generator = create_generator(Some(cfg.validation_library.clone()));
+            if input["project"].get("reanalyse").and_then(|x| x.as_bool()).unwrap_or(false) {
+                // the generator object is reusable too: an earlier generation with other settings (no mapping table, the
+                // other naming cases) into another directory must leave no trace in this one
+                let mut cfg0 = cfg.clone();
+                cfg0.type_mappings = None;
+                cfg0.default_parameter_case = "snake_case".into();
+                cfg0.output_path = root.join("out_first").to_string_lossy().to_string();
+                let _ = generator.generate_models(&commands, structs_map, &cfg0.output_path, &analyzer, &cfg0);
+            }
             match generator.generate_models(&commands, structs_map, &cfg.output_path, &analyzer, &cfg) {
                 Ok(list) => {
                     gen_result = json!({"ok": list});
@@ -541,10 +561,10 @@ fn raw_param(pat: &str, ty_text: &str, kind: &str) -> Value {
 pub const INJECTED: &[&str] = &[
     "AppHandle", "tauri::AppHandle", "State<'_, AppState>", "tauri::State<'_, Db>", "Window<R>", "tauri::Window",
     "WebviewWindow", "tauri::WebviewWindow", "tauri::ipc::Request<'_>", "tauri::State<'_, std::sync::Mutex<Db>>",
-    "AppHandle<R>",
+    "AppHandle<R>", "::tauri::AppHandle", "::tauri::State<'_, Db>",
 ];
 pub const NOT_INJECTED: &[&str] = &["Window", "State", "my::AppState", "Request", "other::Window", "Channel"];
-pub const CHANNELS: &[&str] = &["Channel<{}>", "tauri::ipc::Channel<{}>", "tauri::Channel<{}>"];
+pub const CHANNELS: &[&str] = &["Channel<{}>", "tauri::ipc::Channel<{}>", "tauri::Channel<{}>", "::tauri::ipc::Channel<{}>"];
 pub const ODD_CHANNELS: &[&str] = &["ipc::Channel<{}>", "my::Channel<{}>"];
 
 fn simple_ty(rng: &mut Rng, names: &[String], depth: usize) -> RTy {
@@ -753,7 +773,13 @@ pub fn random_project(rng: &mut Rng, nfiles: usize, adversarial: bool, externs: 
                             fa.push(attr(&format!("serde(rename = \"renamed{}\")", k)))
                         }
                     }
-                    1 => fa.push(attr("serde(skip)")),
+                    1 => {
+                        fa.push(attr("serde(skip)"));
+                        if rng.chance(1, 3) {
+                            // a second serde attribute on the same field, after the skip
+                            fa.push(attr(*rng.pick(&["serde(default = \"fresh\")", "serde(default)", "serde(rename = \"kept\")"])));
+                        }
+                    }
                     2 => fa.push(attr(*rng.pick(&["serde(default)", "serde(flatten)", "serde(flatten, default)", "serde(borrow)", "serde(with = \"serde_bytes\")"]))),
                     3 => fa.push(attr("serde(skip_serializing_if = \"Option::is_none\")")),
                     4 => fa.push(attr("validate(length(min = 1, max = 64))")),
@@ -806,12 +832,15 @@ pub fn random_project(rng: &mut Rng, nfiles: usize, adversarial: bool, externs: 
     let ev_names: Vec<&str> = if adversarial {
         vec!["user-updated", "sync_done", "task:progress", "a/b", "x", "user-updated", "Mixed-Case_1"]
     } else {
-        vec!["user-updated", "sync-done", "task-progress", "download_finished", "x"]
+        vec!["user-updated", "sync-done", "task-progress", "download_finished", "x", "DB-READY", "db-ready"]
     };
     let ncmds = 1 + rng.below(3 + nfiles);
     let mut cmd_names_so_far: Vec<String> = Vec::new();
     for c in 0..ncmds {
-        let name = if adversarial && c > 0 && rng.chance(1, 8) {
+        let name = if adversarial && c > 0 && rng.chance(1, 10) {
+            // the same command name again (two cfg-gated variants of one command in two modules)
+            cmd_names_so_far[0].clone()
+        } else if adversarial && c > 0 && rng.chance(1, 8) {
             // a second command whose name differs from the first only in a way the TypeScript name forgets
             format!("{}_", cmd_names_so_far[0])
         } else if adversarial && rng.chance(1, 10) {
@@ -823,12 +852,18 @@ pub fn random_project(rng: &mut Rng, nfiles: usize, adversarial: bool, externs: 
         let mut locals: Vec<(String, String)> = Vec::new();
         for k in 0..rng.below(4) {
             let pname = format!("{}{}", rng.pick(&["id", "user_name", "filter", "payload", "_opt", "max__count", "größe", "名前_x", "élan_vital"]), k);
+            let mixed: Option<RTy> = if !externs.is_empty() && type_names.len() > externs.len() && rng.chance(1, 3) {
+                // a mapped (external) name and a project type side by side in one tuple / map
+                let e = RTy::Named(rng.pick(externs).to_string());
+                let own = RTy::Named(type_names[rng.below(type_names.len() - externs.len())].clone());
+                Some(if rng.chance(1, 2) { RTy::Tup(vec![e, own]) } else { RTy::HMap(Box::new(e), Box::new(own)) })
+            } else { None };
             // names that are reserved words of JavaScript and plain identifiers of Rust
             let pname = if rng.chance(1, 10) { rng.pick(&["package", "public", "default", "new", "export", "import", "delete", "function", "class", "var"]).to_string() } else { pname };
             if params.iter().any(|q: &Value| s(q, "pat").trim_start_matches("mut ") == pname) {
                 continue;
             }
-            let ty = any_ty(rng, &type_names, 2, adversarial);
+            let ty = match mixed { Some(m) => m, None => any_ty(rng, &type_names, 2, adversarial) };
             let mut pa = Vec::new();
             if rng.chance(1, 10) {
                 pa.push(attr(&format!("serde(rename = \"p{}\")", k)));
@@ -1062,6 +1097,11 @@ pub fn random_project(rng: &mut Rng, nfiles: usize, adversarial: bool, externs: 
         if rng.chance(1, 3) {
             items_per_file[f].push(json!({"k": "other", "text": format!("pub mod inner_{} {{\n    #[tauri::command]\n    pub fn in_mod_{}(x: i32) -> i32 {{ x }}\n}}", f, f)}));
         }
+        if rng.chance(1, 4) && !type_names.is_empty() {
+            // an inline module defining an unrelated serde type with the name of a top-level one
+            let tn = rng.pick(&type_names).clone();
+            items_per_file[f].push(json!({"k": "other", "text": format!("pub mod legacy_{} {{\n    use serde::{{Deserialize, Serialize}};\n    #[derive(Serialize, Deserialize)]\n    pub struct {} {{\n        pub old_field: u8,\n    }}\n}}", f, tn)}));
+        }
         if rng.chance(1, 3) {
             items_per_file[f].push(json!({"k": "other", "text": "const LIMIT: usize = 3;\n// a comment\nmacro_rules! m { () => {} }"}));
         }
@@ -1075,7 +1115,9 @@ pub fn random_project(rng: &mut Rng, nfiles: usize, adversarial: bool, externs: 
     let mut files: Vec<Value> = Vec::new();
     for (i, items) in items_per_file.into_iter().enumerate() {
         let dir = if rng.chance(1, 2) { dirs[i % dirs.len()] } else { dirs[rng.below(dirs.len())] };
-        files.push(json!({"path": format!("{}f{}.rs", dir, i), "items": items,
+        // file names: plain, dot-prefixed (`#[path = ".platform.rs"] mod platform;`)
+        let fname = if rng.chance(1, 8) { format!(".f{}.rs", i) } else if rng.chance(1, 10) { format!("caf{}{}.rs", '\u{fffd}', i) } else { format!("f{}.rs", i) };
+        files.push(json!({"path": format!("{}{}", dir, fname), "items": items,
                           "compact": rng.chance(1, 5), "shebang": rng.chance(1, 6), "symlink": rng.chance(1, 7)}));
     }
     // layout decoys
